@@ -99,7 +99,7 @@ def scenario(rng, findings=False):
         sends([1, 2], 2)
     scn["steps"] = steps
     # listeners that are value-like (compare and hash equal to each other) or unhashable (a plain @dataclass)
-    scn["listener_kind"] = rng.choice(["attr", "attr", "equal", "unhashable"])
+    scn["listener_kind"] = rng.choice(["attr", "attr", "equal", "unhashable", "falsy_len", "falsy_bool"])
     return scn
 
 
